@@ -160,16 +160,18 @@ def lean_phase(pid, plugin, tier, ev):
         # 4 build
         targets = [f"ArvVerif.{os.path.relpath(f, os.path.join(LEAN, 'ArvVerif'))[:-5].replace('/', '.')}"
                    for f in props + ties] + [f"arvmodel_{pid.lower()}"]
-        if tier == "thorough":
-            # clean rebuild of this property's own modules
-            for f in lean_files_of(pid):
-                rel = os.path.relpath(f, LEAN)[:-5]
-                for ext in (".olean", ".ilean", ".trace", ".olean.hash", ".ilean.hash"):
-                    p = os.path.join(LEAN, ".lake", "build", "lib", "lean", rel + ext)
-                    if os.path.exists(p):
-                        os.remove(p)
+        # (No in-place deletion of .olean files: other properties import some of these modules and
+        # may be building at the same time. The thorough tier re-checks the compiled modules with
+        # leanchecker instead; lake's own trace files make the incremental build sound.)
         t0 = time.time()
         rc, out = run(["lake", "build"] + targets, cwd=LEAN, timeout=3600)
+        for attempt in range(3):
+            # a concurrent build of an imported property's module may be replacing its .olean
+            if rc != 0 and re.search(r"(failed to open file|object file .* does not exist|failed to read file).*", out):
+                time.sleep(20 * (attempt + 1))
+                rc, out = run(["lake", "build"] + targets, cwd=LEAN, timeout=3600)
+            else:
+                break
         ev["lake_build_s"] = round(time.time() - t0, 1)
         ok_build = rc == 0
         if not ok_build:
